@@ -96,6 +96,9 @@ def gen_config(rng):
                 m["base_points"] = bs["points"]
         for k in range(rng.choice([2, 2, 3])):
             m["scenarios"]["sc%d" % k] = {} if rng.random() < 0.3 else gen_settings(rng, b["template"], b, partial_runspecs=True)
+        if rng.random() < 0.5:
+            # a name that no other manager has (a run over several managers that asks for it concerns this manager only)
+            m["scenarios"]["u%d" % i] = {} if rng.random() < 0.3 else gen_settings(rng, b["template"], b, partial_runspecs=True)
         managers.append(m)
     return {"bases": bases, "managers": managers}
 
@@ -216,6 +219,10 @@ def generate(spec):
                 ops.append({"op": "end_session"})
                 in_session = None
             continue
+        if in_session is not None:
+            r = rng.random()        # (r was >= 0.55 here: without a new draw no batch run would ever happen inside a session)
+            if r < 0.5 and r >= 0.25:
+                r = 0.1             # a second begin_session inside a session stays rare
         if r < 0.25:
             mgr = rng.choice([m["name"] for m in cfg["managers"]])
             scs = [s for (m, s) in keys if m == mgr]
